@@ -41,6 +41,7 @@ class Ctl:
     self.keys = []  # (path, stream, key data bytes) of every key handed to the body (eager runs only)
     self.plain = plain  # C05: interpret lifted instructions as their plain twin
     self.trace_count = 0
+    self.cur_path = ()
 
   def event(self, what):
     i = self.count
@@ -106,6 +107,7 @@ def setup():
           decl[n] = ('kid', len(kids) - 1)
         elif ins['i'] == 'param':
           CTL.event('param')
+          CTL.cur_path = tuple(self.path)
           ps.append(self.param(ins['name'], int_init(ins['kind']), pshape(ins['kind'])))
           decl[n] = ('param', len(ps) - 1)
         elif ins['i'] == 'var':
@@ -143,7 +145,7 @@ def int_init(kind):
   def init(key, shape, dtype=jnp.float32):
     if CTL.record:
       try:
-        CTL.keys.append(('init', bytes(np.asarray(jax.random.key_data(key)))))
+        CTL.keys.append((CTL.cur_path, 'params', bytes(np.asarray(jax.random.key_data(key)))))
       except Exception:  # noqa: BLE001  (tracers under jit)
         pass
     return jax.random.randint(key, shape, lo, hi).astype(jnp.float32)
@@ -172,6 +174,7 @@ def run_body(mod, sp, x, decl):
     if k == 'param':
       if compact:
         CTL.event('param')
+        CTL.cur_path = tuple(mod.path)
         w = mod.param(ins['name'], int_init(ins['kind']), pshape(ins['kind']))
       else:
         w = mod.ps[decl[str(n)][1]]
